@@ -547,7 +547,8 @@ paf24_read_s (SF_PRIVATE *psf, short *ptr, sf_count_t len)
 	ppaf24 = (PAF24_PRIVATE*) psf->codec_data ;
 
 	iptr = ubuf.ibuf ;
-	bufferlen = ARRAY_LEN (ubuf.ibuf) ;
+	/* Whole frames only : paf24_read / paf24_write count in frames. */
+	bufferlen = (ARRAY_LEN (ubuf.ibuf) / ppaf24->channels) * ppaf24->channels ;
 	while (len > 0)
 	{	readcount = (len >= bufferlen) ? bufferlen : (int) len ;
 		count = paf24_read (psf, ppaf24, iptr, readcount) ;
@@ -589,7 +590,8 @@ paf24_read_f (SF_PRIVATE *psf, float *ptr, sf_count_t len)
 	normfact = (psf->norm_float == SF_TRUE) ? (1.0 / 0x80000000) : (1.0 / 0x100) ;
 
 	iptr = ubuf.ibuf ;
-	bufferlen = ARRAY_LEN (ubuf.ibuf) ;
+	/* Whole frames only : paf24_read / paf24_write count in frames. */
+	bufferlen = (ARRAY_LEN (ubuf.ibuf) / ppaf24->channels) * ppaf24->channels ;
 	while (len > 0)
 	{	readcount = (len >= bufferlen) ? bufferlen : (int) len ;
 		count = paf24_read (psf, ppaf24, iptr, readcount) ;
@@ -617,7 +619,8 @@ paf24_read_d (SF_PRIVATE *psf, double *ptr, sf_count_t len)
 	normfact = (psf->norm_double == SF_TRUE) ? (1.0 / 0x80000000) : (1.0 / 0x100) ;
 
 	iptr = ubuf.ibuf ;
-	bufferlen = ARRAY_LEN (ubuf.ibuf) ;
+	/* Whole frames only : paf24_read / paf24_write count in frames. */
+	bufferlen = (ARRAY_LEN (ubuf.ibuf) / ppaf24->channels) * ppaf24->channels ;
 	while (len > 0)
 	{	readcount = (len >= bufferlen) ? bufferlen : (int) len ;
 		count = paf24_read (psf, ppaf24, iptr, readcount) ;
@@ -716,7 +719,8 @@ paf24_write_s (SF_PRIVATE *psf, const short *ptr, sf_count_t len)
 	ppaf24 = (PAF24_PRIVATE*) psf->codec_data ;
 
 	iptr = ubuf.ibuf ;
-	bufferlen = ARRAY_LEN (ubuf.ibuf) ;
+	/* Whole frames only : paf24_read / paf24_write count in frames. */
+	bufferlen = (ARRAY_LEN (ubuf.ibuf) / ppaf24->channels) * ppaf24->channels ;
 	while (len > 0)
 	{	writecount = (len >= bufferlen) ? bufferlen : (int) len ;
 		for (k = 0 ; k < writecount ; k++)
@@ -770,7 +774,8 @@ paf24_write_f (SF_PRIVATE *psf, const float *ptr, sf_count_t len)
 	normfact = (psf->norm_float == SF_TRUE) ? (1.0 * 0x7FFFFFFF) : (1.0 / 0x100) ;
 
 	iptr = ubuf.ibuf ;
-	bufferlen = ARRAY_LEN (ubuf.ibuf) ;
+	/* Whole frames only : paf24_read / paf24_write count in frames. */
+	bufferlen = (ARRAY_LEN (ubuf.ibuf) / ppaf24->channels) * ppaf24->channels ;
 	while (len > 0)
 	{	writecount = (len >= bufferlen) ? bufferlen : (int) len ;
 		for (k = 0 ; k < writecount ; k++)
@@ -801,7 +806,8 @@ paf24_write_d (SF_PRIVATE *psf, const double *ptr, sf_count_t len)
 	normfact = (psf->norm_double == SF_TRUE) ? (1.0 * 0x7FFFFFFF) : (1.0 / 0x100) ;
 
 	iptr = ubuf.ibuf ;
-	bufferlen = ARRAY_LEN (ubuf.ibuf) ;
+	/* Whole frames only : paf24_read / paf24_write count in frames. */
+	bufferlen = (ARRAY_LEN (ubuf.ibuf) / ppaf24->channels) * ppaf24->channels ;
 	while (len > 0)
 	{	writecount = (len >= bufferlen) ? bufferlen : (int) len ;
 		for (k = 0 ; k < writecount ; k++)
